@@ -64,6 +64,8 @@ def batch_shape(c):
         return []
     if c["brank"] == 2:
         return [c["rows"]]
+    if (c["rows"] + c["K"]) % 3 == 0:
+        return [c["rows"], 1]
     return [2, c["rows"] // 2] if c["rows"] % 2 == 0 else [1, c["rows"]]
 
 
